@@ -179,7 +179,7 @@ def run_check(mod, tier: str, seed: int, jobs: int = 0) -> int:
 
     replay_paths = []
     for v in new_viol:
-        rdir = os.path.join(VERIF, "replays", prop_id)
+        rdir = os.path.join(os.environ.get("OPV_OUT_DIR") or VERIF, "replays", prop_id)
         os.makedirs(rdir, exist_ok=True)
         rp = os.path.join(rdir, h(v) + ".json")
         with open(rp, "w") as f:
@@ -217,8 +217,11 @@ def run_check(mod, tier: str, seed: int, jobs: int = 0) -> int:
         "wall_s": round(wall, 2),
         "violations": sum(new_counts.values()),
     }
-    os.makedirs(os.path.join(VERIF, "evidence"), exist_ok=True)
-    with open(os.path.join(VERIF, "evidence", f"{prop_id}.json"), "w") as f:
+    # OPV_OUT_DIR (development aid, never set by MANIFEST commands): self-test / seeded runs against a scratch copy of
+    # the repository must not overwrite the evidence of the checks run against /repo itself
+    ev_dir = os.path.join(os.environ.get("OPV_OUT_DIR") or VERIF, "evidence")
+    os.makedirs(ev_dir, exist_ok=True)
+    with open(os.path.join(ev_dir, f"{prop_id}.json"), "w") as f:
         json.dump(ev, f, indent=1, default=str)
 
     for k in sorted(known_seen):
